@@ -406,10 +406,19 @@ bool World::op_kernel(std::string const& ctx, toks const& op)
 	if (o == "run")
 	{
 		emit("C %s run", c);
-		std::size_t n = sim->run();
-		emit("R %s run => n=%zu t=%lld", c, n, (long long)now_ns());
+		try
+		{
+			std::size_t n = sim->run();
+			emit("R %s run => n=%zu t=%lld", c, n, (long long)now_ns());
+		}
+		catch (scenario_exception const&)
+		{
+			// a user handler threw: run() cancelled what is pending, stopped and rethrew
+			emit("R %s run => throw t=%lld", c, (long long)now_ns());
+		}
 		return true;
 	}
+	if (o == "throw") { emit("C %s throw", c); throw scenario_exception(); }
 	if (o == "stop") { sim->stop(); emit("C %s stop => -", c); return true; }
 	if (o == "restart") { sim->restart(); emit("C %s restart => -", c); return true; }
 	if (o == "now") { emit("C %s now => %lld", c, (long long)now_ns()); return true; }
